@@ -33,7 +33,7 @@ def gen_fn1(rng):
     d = rng.choice([0.0, 0.0, dyadic(rng, -4, 4, 2), gfloat(rng, 5.0)])
     sh = ("-", X, ("c", c))
     kinds = ["quad", "quad", "quartic", "abs", "vee", "absquad", "const", "flatbottom", "steps", "stepabs", "stepdown", "linear",
-             "negquad", "bumpy", "bumpstep", "rational", "hump", "random", "nanregion", "intquad", "intabs", "twowell"]
+             "negquad", "bumpy", "bumpstep", "rational", "hump", "random", "nanregion", "intquad", "intabs", "twowell", "spike"]
     kind = rng.choice(kinds)
     box = None
     if kind == "quad":
@@ -73,6 +73,11 @@ def gen_fn1(rng):
         e = dsl.gen_expr(rng, 1, depth=3)
     elif kind == "nanregion":    # inf * 0 = NaN left of c, +inf*positive = inf right of it; plus a valley
         e = ("+", ("sq", ("-", X, ("c", c - 1.0))), ("*", ("c", INF), ("max", ("c", 0.0), sh)))
+    elif kind == "spike":        # a valley with a narrow spike at its bottom: from (0, 1) the parabola's vertex lands on the spike,
+        # f(w) > f(xb) > f(xc): the `elif (fw > fb)` exit of bracket, which forgets the lower point (xc, fc)
+        cc = rng.choice([2.0, 2.0, 1.9, 2.25, rng.uniform(1.85, 2.5)])
+        e = ("+", ("*", ("c", k), ("sq", ("-", X, ("c", cc)))),
+             ("*", ("c", rng.choice([50.0, 1e3, 1e6]) * k), ("max", ("c", 0.0), ("-", ("c", rng.choice([0.1, 0.2, 0.3])), ("abs", ("-", X, ("c", cc)))))))
     elif kind == "intquad":      # integers / dyadics only: exact arithmetic, exact ties
         e = ("sq", ("-", X, ("c", float(rng.randint(-4, 6)))))
     elif kind == "intabs":
